@@ -8,6 +8,7 @@ mod props;
 mod refmodel;
 mod report;
 mod sched;
+mod srv;
 
 use report::{Reporter, Tier};
 use std::path::PathBuf;
